@@ -24,7 +24,7 @@ theorem modify_found {d : Disk} (hs : SInv d) (v : Vol) (fsL : List LRec) (ch : 
     (hren : ¬ (Ent.access (entryAt (unitAt d.raw B) k 39) &&& 0x40 = 0 ∧ newName.isSome = true))
     (e' : Bytes) (he' : modEntry lock newName newType newAux (entryAt (unitAt d.raw B) k 39) = e')
     (hl : e'.length = 39) (hb : ∀ x ∈ e', x < 256) (hsb : SameBlocks (entryAt (unitAt d.raw B) k 39) e')
-    (hua : UniformAcc (e'.getD 30 0))
+    (hua : UniformAcc (e'.getD 30 0)) (hname : 47 ∉ trimName e')
     (hpath : ∀ f, Read.ProdosT.readFile d.raw (hdrTotal d.raw) (entryAt (unitAt d.raw B) k 39) [] = .ok f →
       (baseRec e' []).path = f.path ∨ (baseRec e' []).path ∉ v.paths) :
     ∃ d1 d4 v4 f FA FB, Fs.Prodos.modify { block := B, idx := k + 1 } lock newName newType newAux d = (.ok (), d1) ∧
@@ -41,7 +41,7 @@ theorem modify_found {d : Disk} (hs : SInv d) (v : Vol) (fsL : List LRec) (ch : 
     (by rw [heff, hbsz]; exact cover_of_lt (hchf B hB).1) (hs.inv.shape.unit hBl).1
   rw [he', take_full e' hl] at n1
   obtain ⟨d4, v4, f, FA, FB, hfl, hs4, hr4, hrf, hf1, hf4, hw4, hw, hlab⟩ :=
-    replace_reading hs v fsL' ch' hr ht B k hB hk13 hkey hst e' hl hb hsb hua n1 hpath
+    replace_reading hs v fsL' ch' hr ht B k hB hk13 hkey hst e' hl hb hsb hua hname n1 hpath
   exact ⟨d1, d4, v4, f, FA, FB, hd1, hfl, hs4, hr4, hrf, hf1, hf4, hw4, hw, hlab⟩
 
 /-- the slot the search found: a file entry of 39 bytes whose trimmed name is the upper-cased name -/
@@ -53,7 +53,8 @@ theorem found_slot {d : Disk} (hs : SInv d) (v : Vol) (fsL : List LRec) (ch : Li
       ((entryAt (unitAt d.raw B) k 39).getD 0 0 / 16 = 1 ∨ (entryAt (unitAt d.raw B) k 39).getD 0 0 / 16 = 2 ∨
         (entryAt (unitAt d.raw B) k 39).getD 0 0 / 16 = 3) ∧
       trimName (entryAt (unitAt d.raw B) k 39) = upper nm ∧ (entryAt (unitAt d.raw B) k 39).length = 39 ∧
-      (∀ y ∈ entryAt (unitAt d.raw B) k 39, y < 256) ∧ UniformAcc ((entryAt (unitAt d.raw B) k 39).getD 30 0) := by
+      (∀ y ∈ entryAt (unitAt d.raw B) k 39, y < 256) ∧ UniformAcc ((entryAt (unitAt d.raw B) k 39).getD 30 0) ∧
+      47 ∉ trimName (entryAt (unitAt d.raw B) k 39) := by
   obtain ⟨hw, hn, hroot, hvv, hc, hic, hnd, hchf, h2, h6, h3, hbt, hstv⟩ := root_chain_facts hs.inv v fsL ch hr ht
   obtain ⟨hxm, hxhit⟩ := mem_find hx
   obtain ⟨B, hB, k, hk13, hkey, hxe⟩ := mem_dirSlots.mp hxm
@@ -63,7 +64,8 @@ theorem found_slot {d : Disk} (hs : SInv d) (v : Vol) (fsL : List LRec) (ch : Li
   obtain ⟨hst, hname⟩ := isFileMatch_file nm _ hv hmatch
   have hBl : B < d.raw.units.size := by rw [← hs.inv.size]; exact (hchf B hB).1
   have hsh := hs.inv.shape.unit hBl
-  refine ⟨B, k, hB, hk13, hkey, rfl, hst, hname, entryAt_length _ _ (by rw [hsh.1]; omega), entryAt_bytes _ _ hsh.2, ?_⟩
+  refine ⟨B, k, hB, hk13, hkey, rfl, hst, hname, entryAt_length _ _ (by rw [hsh.1]; omega), entryAt_bytes _ _ hsh.2, ?_,
+    hroot.names _ hxm (by unfold isAct; simp only [ne_eq, decide_eq_true_eq]; omega)⟩
   rcases (hroot.slots _ hxm).file (by simp only; omega) with h0 | ⟨_, hu, _⟩
   · simp only at h0; rw [h0] at hst; simp at hst
   · exact hu
@@ -132,11 +134,14 @@ theorem lock_refines' {d : Disk} (hs : SInv d) (path nm : Bytes)
   · cases hx : (dirSlots d.raw 2 ch).find? (isHit fileTypes nm) with
     | none => obtain ⟨e, he⟩ := findFile_fail c path nm hnodes hnm (Or.inr hx); exact hfail e he
     | some x =>
-      obtain ⟨B, k, hB, hk13, hkey, hxe, hst, hname, hl0, hb0, hua0⟩ := found_slot hs v fsL ch hr ht nm hv x hx
+      obtain ⟨B, k, hB, hk13, hkey, hxe, hst, hname, hl0, hb0, hua0, hns0⟩ := found_slot hs v fsL ch hr ht nm hv x hx
       subst hxe
       have ha : (entryAt (unitAt d.raw B) k 39).getD 30 0 < 256 := getD_lt_of_bytes _ _ hb0
       obtain ⟨hu', hlt', hlk'⟩ := lockAcc_uniform ⟨_, ha⟩
       have hgd := fun j => setAccess_getD (entryAt (unitAt d.raw B) k 39) (lockAcc ((entryAt (unitAt d.raw B) k 39).getD 30 0)) j hl0
+      have htrim0 : trimName (Ent.setAccess (entryAt (unitAt d.raw B) k 39) (lockAcc ((entryAt (unitAt d.raw B) k 39).getD 30 0))) =
+          trimName (entryAt (unitAt d.raw B) k 39) :=
+        trimName_congr _ _ (by rw [setAccess_length _ _ hl0, hl0]) (fun j hj => by rw [hgd j, if_neg (by omega)])
       obtain ⟨d1, d4, v4, f, FA, FB, hmod, hfl, hs4, hr4, hrf, hf1, hf4, hw4, hw, hlab⟩ :=
         modify_found hs v fsL ch hr ht B k hB hk13 hkey hst (some true) none none none (by simp) (by simp)
           (Ent.setAccess (entryAt (unitAt d.raw B) k 39) (lockAcc ((entryAt (unitAt d.raw B) k 39).getD 30 0)))
@@ -144,6 +149,7 @@ theorem lock_refines' {d : Disk} (hs : SInv d) (path nm : Bytes)
           (splice_bytes _ _ _ hb0 (by intro y hy; simp at hy; rw [hy]; exact hlt'))
           (sameBlocks_of_bytes _ _ (by rw [hgd 0, if_neg (by omega)]) (fun j h1 h2 => by rw [hgd j, if_neg (by omega)]))
           (by rw [hgd 30, if_pos rfl]; exact hu')
+          (by rw [htrim0]; exact hns0)
           (fun f' hf' => Or.inl (by
             rw [baseRec_path_root, (old_fields _ _ _ f' hf').1]
             exact trimName_congr _ _ (by rw [setAccess_length _ _ hl0, hl0]) (fun j hj => by rw [hgd j, if_neg (by omega)])))
@@ -184,11 +190,14 @@ theorem unlock_refines' {d : Disk} (hs : SInv d) (path nm : Bytes)
   · cases hx : (dirSlots d.raw 2 ch).find? (isHit fileTypes nm) with
     | none => obtain ⟨e, he⟩ := findFile_fail c path nm hnodes hnm (Or.inr hx); exact hfail e he
     | some x =>
-      obtain ⟨B, k, hB, hk13, hkey, hxe, hst, hname, hl0, hb0, hua0⟩ := found_slot hs v fsL ch hr ht nm hv x hx
+      obtain ⟨B, k, hB, hk13, hkey, hxe, hst, hname, hl0, hb0, hua0, hns0⟩ := found_slot hs v fsL ch hr ht nm hv x hx
       subst hxe
       have ha : (entryAt (unitAt d.raw B) k 39).getD 30 0 < 256 := getD_lt_of_bytes _ _ hb0
       obtain ⟨hu', hlt', hlk'⟩ := unlockAcc_uniform ⟨_, ha⟩
       have hgd := fun j => setAccess_getD (entryAt (unitAt d.raw B) k 39) (unlockAcc ((entryAt (unitAt d.raw B) k 39).getD 30 0)) j hl0
+      have htrim0 : trimName (Ent.setAccess (entryAt (unitAt d.raw B) k 39) (unlockAcc ((entryAt (unitAt d.raw B) k 39).getD 30 0))) =
+          trimName (entryAt (unitAt d.raw B) k 39) :=
+        trimName_congr _ _ (by rw [setAccess_length _ _ hl0, hl0]) (fun j hj => by rw [hgd j, if_neg (by omega)])
       obtain ⟨d1, d4, v4, f, FA, FB, hmod, hfl, hs4, hr4, hrf, hf1, hf4, hw4, hw, hlab⟩ :=
         modify_found hs v fsL ch hr ht B k hB hk13 hkey hst (some false) none none none (by simp) (by simp)
           (Ent.setAccess (entryAt (unitAt d.raw B) k 39) (unlockAcc ((entryAt (unitAt d.raw B) k 39).getD 30 0)))
@@ -196,6 +205,7 @@ theorem unlock_refines' {d : Disk} (hs : SInv d) (path nm : Bytes)
           (splice_bytes _ _ _ hb0 (by intro y hy; simp at hy; rw [hy]; exact hlt'))
           (sameBlocks_of_bytes _ _ (by rw [hgd 0, if_neg (by omega)]) (fun j h1 h2 => by rw [hgd j, if_neg (by omega)]))
           (by rw [hgd 30, if_pos rfl]; exact hu')
+          (by rw [htrim0]; exact hns0)
           (fun f' hf' => Or.inl (by
             rw [baseRec_path_root, (old_fields _ _ _ f' hf').1]
             exact trimName_congr _ _ (by rw [setAccess_length _ _ hl0, hl0]) (fun j hj => by rw [hgd j, if_neg (by omega)])))
@@ -241,7 +251,7 @@ theorem retype_refines' {d : Disk} (hs : SInv d) (path nm : Bytes) (newType aux 
   · cases hx : (dirSlots d.raw 2 ch).find? (isHit fileTypes nm) with
     | none => obtain ⟨e, he⟩ := findFile_fail c path nm hnodes hnm (Or.inr hx); exact hfail e he
     | some x =>
-      obtain ⟨B, k, hB, hk13, hkey, hxe, hst, hname, hl0, hb0, hua0⟩ := found_slot hs v fsL ch hr ht nm hv x hx
+      obtain ⟨B, k, hB, hk13, hkey, hxe, hst, hname, hl0, hb0, hua0, hns0⟩ := found_slot hs v fsL ch hr ht nm hv x hx
       subst hxe
       obtain ⟨_, _, _, _, _, _, _, hchf, _, _, _, _, _⟩ := root_chain_facts hs.inv v fsL ch hr ht
       have hBl : B < d.raw.units.size := by rw [← hs.inv.size]; exact (hchf B hB).1
@@ -267,6 +277,9 @@ theorem retype_refines' {d : Disk} (hs : SInv d) (path nm : Bytes) (newType aux 
       have hbytes' : ∀ y ∈ Ent.setAux (Ent.setFtype (entryAt (unitAt d.raw B) k 39) t) a, y < 256 := by
         unfold Ent.setAux Ent.setFtype
         apply splice_bytes _ _ _ (splice_bytes _ _ _ hb0 (by intro y hy; simp at hy; rw [hy]; exact ht256)) (u16le_bytes a)
+      have htrim0 : trimName (Ent.setAux (Ent.setFtype (entryAt (unitAt d.raw B) k 39) t) a) = trimName (entryAt (unitAt d.raw B) k 39) :=
+        trimName_congr _ _ (by rw [hlen', hl0]) (fun j hj => by
+          rw [hgd j, if_neg (by omega), if_neg (by omega), if_neg (by omega)])
       obtain ⟨d1, d4, v4, f, FA, FB, hmod, hfl, hs4, hr4, hrf, hf1, hf4, hw4, hw, hlab⟩ :=
         modify_found hs v fsL ch hr ht B k hB hk13 hkey hst none none (some (some t)) (some a) (by simp) (by simp)
           (Ent.setAux (Ent.setFtype (entryAt (unitAt d.raw B) k 39) t) a)
@@ -274,6 +287,7 @@ theorem retype_refines' {d : Disk} (hs : SInv d) (path nm : Bytes) (newType aux 
           (sameBlocks_of_bytes _ _ (by rw [hgd 0, if_neg (by omega), if_neg (by omega), if_neg (by omega)])
             (fun j h1 h2 => by rw [hgd j, if_neg (by omega), if_neg (by omega), if_neg (by omega)]))
           (by rw [hgd 30, if_neg (by omega), if_neg (by omega), if_neg (by omega)]; exact hua0)
+          (by rw [htrim0]; exact hns0)
           (fun f' hf' => Or.inl (by
             rw [baseRec_path_root, (old_fields _ _ _ f' hf').1]
             exact trimName_congr _ _ (by rw [hlen', hl0]) (fun j hj => by
